@@ -52,6 +52,42 @@ def rand_action(rng, nc, nt):
     return "nop"
 
 
+def rand_net_exec(rng, nops):
+    """Histories with listeners (connections from harness sockets) and establishers (connects to harness listeners)."""
+    ops = []
+    for _ in range(nops):
+        r = rng.random()
+        l, e, h, c = rng.randint(1, 2), rng.randint(1, 2), rng.randint(1, 4), rng.randint(1, 3)
+        if r < 0.12:
+            ops.append("listen %d" % l)
+        elif r < 0.28:
+            ops.append("pconnect %d %d" % (h, l))
+        elif r < 0.34:
+            ops.append("rmlisten %d" % l)
+        elif r < 0.42:
+            ops.append("hlisten %d" % h)
+        elif r < 0.54:
+            ops.append("conn %d %d" % (e, h))
+        elif r < 0.58:
+            ops.append("hclose %d" % h)
+        elif r < 0.62:
+            ops.append("rmconn %d" % e)
+        elif r < 0.90:
+            steps = []
+            for _ in range(rng.randint(1, 4)):
+                k = rng.random()
+                steps.append("L%d" % rng.randint(1, 2) if k < 0.3 else ("E%d" % rng.randint(1, 2) if k < 0.55 else ("A" if k < 0.8 else ("I%d" % c if k < 0.9 else "T"))))
+            for _ in range(rng.choice([0, 0, 1, 2])):
+                ops.append("oncb " + rng.choice(["rmlisten %d" % l, "rmconn %d" % e, "remove %d" % c, "reject", "keep", "nop", "write %d 3 F" % c,
+                                                 "rmlisten %d;rmconn %d" % (l, e)]))
+            ops.append("run " + " ".join(steps))
+        elif r < 0.95:
+            ops.append("write %d %d F" % (c, rng.randint(1, 5)))
+        else:
+            ops.append("remove %d" % c)
+    return ops
+
+
 def rand_exec(rng, nops):
     nc = rng.choice([1, 2, 2])
     nt = rng.choice([2, 4, 6])
@@ -226,6 +262,9 @@ def run(ctx):
     nexec, nops = (800, 40) if ctx.quick else (10000, 60)
     execs = [rand_exec(ctx.rng, nops) for _ in range(nexec)]
     check_executions(ctx, binary, execs, "random")
+    # listeners and establishers: acceptable / connected sockets dispatched, nothing after remove (also from callbacks)
+    execs = [rand_net_exec(ctx.rng, nops) for _ in range(nexec // 2)]
+    check_executions(ctx, binary, execs, "randomnet")
     # interrupt() from other threads, before or during run(): all interleavings of the protocol by TLC, schedules
     # replayed on the real Server under the cooperative scheduler
     run_interrupt_part(ctx)
